@@ -204,6 +204,19 @@ func runC18(c *ctx) {
 	}
 	// long / deep inputs (stack growth)
 	idx := 0
+	// more than a MiB of rules: every token and every reduction of the last rule must still arrive
+	for _, nRules := range []int{65535, 65536, 70000} {
+		var b strings.Builder
+		b.WriteString("grammar g;\n")
+		for k := 0; k < nRules; k++ {
+			fmt.Fprintf(&b, "r%07d = \"a\" ;\n", k) // 16 bytes each
+		}
+		if c.mineIdx(idx) {
+			c18One(c, fmt.Sprintf("big%d", nRules), b.String(), false)
+			c.count("texts_larger_than_a_mebibyte", 1)
+		}
+		idx++
+	}
 	for _, d := range []int{200, 600, 1100, 2600} {
 		var b strings.Builder
 		b.WriteString("grammar g; start = ")
